@@ -120,6 +120,8 @@ class BinaryData:
         self.wflips_so_far += 1
 
     def insert_fj_op(self, flip: int, jump: int) -> None:
+        assert_address_in_memory(self.memory_width, flip)
+        assert_address_in_memory(self.memory_width, jump)
         self.fj_words += (flip, jump)
         self.current_address += 2 * self.memory_width
 
@@ -128,6 +130,9 @@ class BinaryData:
             self.insert_fj_op(0, return_address)
         else:
             assert_address_in_memory(self.memory_width, flip_value)
+            assert_address_in_memory(self.memory_width, word_address)
+            assert_address_in_memory(self.memory_width, word_address + flip_value.bit_length() - 1)
+            assert_address_in_memory(self.memory_width, return_address)
 
             return_dict = self.wflips_dict[return_address]
 
